@@ -101,7 +101,7 @@ def handle (toks : List String) : String :=
       | some op =>
         let s : St := { text := t, cur := c, clip := { text := ct, lines := cl }, regs := [],
                         insert := false }
-        match run env s oa op ma m with
+        match Ptk.C08.run env s oa op ma m with
         | some s' => encSt s'
         | none => "err"
       | none => "bad-op"
@@ -127,4 +127,4 @@ def handle (toks : List String) : String :=
     | _, _, _, _, _ => "bad-op"
   | _ => "bad-op"
 
-def main : IO Unit := run handle
+def main : IO Unit := Ptk.Proto.run handle
